@@ -1,0 +1,186 @@
+//go:build verif
+
+package fit
+
+import (
+	"reflect"
+	"time"
+
+	"github.com/tormoder/fit/internal/types"
+)
+
+// Read-only exports of package internals for the verification harness in
+// /verif. Compiled only with -tags verif. Nothing here resets or mutates
+// library state.
+
+// VerifField mirrors a profile lookup table entry.
+type VerifField struct {
+	Sindex int
+	Num    byte
+	T      uint16
+	Length byte
+}
+
+// VerifFields returns a copy of the profile field lookup table. A nil entry
+// means no field is listed for that (message, field number).
+func VerifFields() [][256]*VerifField {
+	out := make([][256]*VerifField, len(_fields))
+	for m := range _fields {
+		for n := 0; n < 256; n++ {
+			f := _fields[m][n]
+			if f == nil {
+				continue
+			}
+			out[m][n] = &VerifField{Sindex: f.sindex, Num: f.num, T: uint16(f.t), Length: f.length}
+		}
+	}
+	return out
+}
+
+// VerifGetField calls getField.
+func VerifGetField(gmn MesgNum, fdn byte) (*VerifField, bool) {
+	f, ok := getField(gmn, fdn)
+	if !ok {
+		return nil, false
+	}
+	return &VerifField{Sindex: f.sindex, Num: f.num, T: uint16(f.t), Length: f.length}, true
+}
+
+// VerifKnownMsgNums returns a copy of knownMsgNums.
+func VerifKnownMsgNums() map[MesgNum]bool {
+	out := make(map[MesgNum]bool, len(knownMsgNums))
+	for k, v := range knownMsgNums {
+		out[k] = v
+	}
+	return out
+}
+
+// VerifMsgsTypes returns a copy of msgsTypes (nil where unset).
+func VerifMsgsTypes() []reflect.Type {
+	out := make([]reflect.Type, len(msgsTypes))
+	copy(out, msgsTypes[:])
+	return out
+}
+
+// VerifNumNewMesgFuncs returns len(newMesgFuncs).
+func VerifNumNewMesgFuncs() int { return len(newMesgFuncs) }
+
+// VerifNewMesg returns newMesgFuncs[i]() and whether the entry is non-nil.
+func VerifNewMesg(i int) (reflect.Value, bool) {
+	if i < 0 || i >= len(newMesgFuncs) || newMesgFuncs[i] == nil {
+		return reflect.Value{}, false
+	}
+	return newMesgFuncs[i](), true
+}
+
+// VerifGetMesgAllInvalid calls getMesgAllInvalid.
+func VerifGetMesgAllInvalid(mn MesgNum) reflect.Value { return getMesgAllInvalid(mn) }
+
+// VerifGetGlobalMesgNum calls getGlobalMesgNum.
+func VerifGetGlobalMesgNum(t reflect.Type) MesgNum { return getGlobalMesgNum(t) }
+
+// VerifValidateFieldDef calls (*decoder).validateFieldDef on a fresh decoder.
+func VerifValidateFieldDef(gmsgnum MesgNum, num, size, btype byte) error {
+	var d decoder
+	return d.validateFieldDef(gmsgnum, fieldDef{num: num, size: size, btype: types.Base(btype)})
+}
+
+// VerifDecodeDateTime calls decodeDateTime.
+func VerifDecodeDateTime(u uint32) time.Time { return decodeDateTime(u) }
+
+// VerifEncodeTime calls encodeTime.
+func VerifEncodeTime(t time.Time) uint32 { return encodeTime(t) }
+
+// VerifTimeBase returns timeBase.
+func VerifTimeBase() time.Time { return timeBase }
+
+// VerifFileInit calls (*File).init.
+func VerifFileInit(f *File) error { return f.init() }
+
+// VerifFileAdd calls (*File).add.
+func VerifFileAdd(f *File, msg reflect.Value) { f.add(msg) }
+
+// VerifContainer returns the typed container f.init selected (nil interface
+// if none).
+func VerifContainer(f *File) interface{} {
+	if f.msgAdder == nil {
+		return nil
+	}
+	return f.msgAdder
+}
+
+// VerifDevMsgs returns the developer data messages collected in f.
+func VerifDevMsgs(f *File) ([]*FieldDescriptionMsg, []*DeveloperDataIdMsg) {
+	return f.fieldDescriptionMsgs, f.developerDataIdMsgs
+}
+
+// VerifExpandComponents calls expandComponents on a pointer to a message
+// that has the method; it reports false otherwise.
+func VerifExpandComponents(msg interface{}) bool {
+	type expander interface{ expandComponents() }
+	x, ok := msg.(expander)
+	if !ok {
+		return false
+	}
+	x.expandComponents()
+	return true
+}
+
+// VerifAccumulate runs a fresh accumulator, as created by
+// uint32NewAccumulator(bits), over values.
+func VerifAccumulate(bits uint, values []uint32) []uint32 {
+	a := uint32NewAccumulator(bits)
+	out := make([]uint32, len(values))
+	for i, v := range values {
+		out[i] = a.accumulate(v)
+	}
+	return out
+}
+
+// VerifConsts returns the protocol constants the decoder and encoder use.
+func VerifConsts() map[string]uint64 {
+	return map[string]uint64{
+		"headerTypeMask":             uint64(headerTypeMask),
+		"compressedHeaderMask":       uint64(compressedHeaderMask),
+		"compressedTimeMask":         uint64(compressedTimeMask),
+		"compressedLocalMesgNumMask": uint64(compressedLocalMesgNumMask),
+		"mesgDefinitionMask":         uint64(mesgDefinitionMask),
+		"devDataMask":                uint64(devDataMask),
+		"mesgHeaderMask":             uint64(mesgHeaderMask),
+		"localMesgNumMask":           uint64(localMesgNumMask),
+		"maxLocalMesgs":              uint64(maxLocalMesgs),
+		"littleEndian":               uint64(littleEndian),
+		"bigEndian":                  uint64(bigEndian),
+		"bytesForCRC":                uint64(bytesForCRC),
+		"headerSizeCRC":              uint64(headerSizeCRC),
+		"headerSizeNoCRC":            uint64(headerSizeNoCRC),
+		"fieldNumTimeStamp":          uint64(fieldNumTimeStamp),
+		"systemTimeMarker":           uint64(systemTimeMarker),
+		"sint32Invalid":              uint64(sint32Invalid),
+		"protocolVersionMajorShift":  uint64(protocolVersionMajorShift),
+		"protocolVersionMajorMask":   uint64(protocolVersionMajorMask),
+		"currentProtocolVersion":     uint64(currentProtocolVersion),
+		"ProfileVersion":             uint64(ProfileVersion),
+		"ProfileMajorVersion":        uint64(ProfileMajorVersion),
+		"ProfileMinorVersion":        uint64(ProfileMinorVersion),
+		"MesgNumFileId":              uint64(MesgNumFileId),
+		"MesgNumInvalid":             uint64(MesgNumInvalid),
+		"tmpLen":                     uint64(len(decoder{}.tmp)),
+		"bufLen":                     uint64(len(decoder{}.bytes.buf)),
+		"fitDataType0":               uint64(fitDataTypeString[0]),
+		"fitDataType1":               uint64(fitDataTypeString[1]),
+		"fitDataType2":               uint64(fitDataTypeString[2]),
+		"fitDataType3":               uint64(fitDataTypeString[3]),
+	}
+}
+
+// VerifEncodeMesgDefFields returns the profile field numbers, in order, that
+// getEncodeMesgDef selects for mesg (a message struct value).
+func VerifEncodeMesgDefFields(mesg reflect.Value) []byte {
+	def := getEncodeMesgDef(reflect.Indirect(mesg), 0)
+	out := make([]byte, len(def.fields))
+	for i, f := range def.fields {
+		out[i] = f.num
+	}
+	return out
+}
